@@ -1470,6 +1470,19 @@ pub fn gen_c02(c: &mut Ctx) {
                     let k = c.rng.below(b.w.len());
                     b.w[k] ^= 1;
                     p!(c, "eq {} {} {}", ty, a.show(), b.show());
+                    if b.w.len() >= 2 {
+                        // two blocks changed by the same word: the differences cancel under XOR
+                        // (seed C02-n: an equality that accumulates diff ^= t1 ^ t2)
+                        let mut d = a.clone();
+                        let w = c.rng.next() | 1;
+                        let k2 = (k + 1) % d.w.len();
+                        d.w[k] ^= w;
+                        d.w[k2] ^= w;
+                        p!(c, "eq {} {} {}", ty, a.show(), d.show());
+                        p!(c, "cmp {} {} {}", ty, a.show(), d.show());
+                        let nota = Tab::new(n, a.w.iter().map(|x| !x).collect());
+                        p!(c, "eq {} {} {}", ty, a.show(), nota.show());
+                    }
                 }
             }
         }
